@@ -311,7 +311,7 @@ def run(tier, seed):
     items = [(j + 1, g) for j, g in enumerate(groups)]
     runner.log('E9: %d groups of related calls (random tables, person, books)' % len(items))
     outs = runner.pmap(run_group, items, chunk=1)
-    laws, apis, where = [], [], {}
+    laws, apis, where, fresh_case = [], [], {}, {}
     for o in outs:
         for l in o['laws']:
             l['tid'] = len(laws) + 1
@@ -321,6 +321,14 @@ def run(tier, seed):
             a['tid'] = len(apis) + 1
             where[('api', a['tid'])] = o['gid']
             apis.append(a)
+    # C10: a sample of the joins once more in fresh interpreters, compared with the runs in the worn worker processes
+    rng = random.Random('%s|e9fresh' % seed)
+    pool_groups = [g for g in groups if g['src'].startswith(('random', 'selfjoin'))]
+    picked = rng.sample(pool_groups, min(len(pool_groups), 96 if tier == 'quick' else 400))
+    for l in runner.fresh_vs_worn([dict(g['case'], op=('<=' if g['case']['meas'] == 'EDIT_DISTANCE' else '>=')) for g in picked]):
+        l['tid'] = len(laws) + 1
+        fresh_case[l['tid']] = l.pop('_case')
+        laws.append(l)
     runner.log('E9: TLC judges %d laws and %d join traces' % (len(laws), len(apis)))
     small = [l for l in laws if len(l['A']) + len(l['B']) < 3000]
     big = [l for l in laws if len(l['A']) + len(l['B']) >= 3000]
@@ -332,6 +340,11 @@ def run(tier, seed):
     lmap = {l['tid']: l for l in laws}
     fails = []
     for tid, v in lverd.items():
+        if tid in fresh_case:
+            for f in v['fails']:
+                fails.append({'prop': f[0], 'clause': f[1] + ':fresh-interpreter', 'detail': f[2:],
+                              'case': dict(fresh_case[tid], _variant='fresh-interpreter'), 'engine': 'E9'})
+            continue
         g = gmap[where[('law', tid)]]
         l = lmap[tid]
         for f in v['fails']:
@@ -362,6 +375,14 @@ def run(tier, seed):
 
 def replay(case):
     law = case.get('_law')
+    if case.get('_variant') == 'fresh-interpreter':
+        base = {k: v for k, v in case.items() if k != '_variant'}
+        laws = runner.fresh_vs_worn([base])
+        for j, l in enumerate(laws):
+            l['tid'] = j + 1
+            l.pop('_case')
+        v, _ = runner.validate(laws, 'TraceLaws', 'replay-e9f')
+        return [{'prop': f[0], 'clause': f[1] + ':fresh-interpreter', 'detail': f[2:]} for x in v.values() for f in x['fails']], {}
     if not law:
         obs, res, ev, tabs = record.execute(case)
         rec = record.abstract(case, obs, res, tabs, 1)
